@@ -15,11 +15,24 @@ def httpdate(mtime):
     return email.utils.formatdate(mtime, usegmt=True)
 
 
+_CONTENT_CACHE = {}
+
+
 def content_bytes(case):
     if 'hex' in case:
         return bytes.fromhex(case['hex'])
-    a, b = case['ca'], case['cb']
-    return bytes((a * i + b) % 251 for i in range(case['len']))
+    key = (case['len'], case['ca'], case['cb'])
+    c = _CONTENT_CACHE.get(key)
+    if c is None:
+        if len(_CONTENT_CACHE) > 64:
+            _CONTENT_CACHE.clear()
+        a, b = case['ca'], case['cb']
+        # byte i = (a*i + b) % 251: one period of 251 bytes repeated
+        period = bytes((a * i + b) % 251 for i in range(251))
+        n = case['len']
+        c = (period * (n // 251 + 1))[:n]
+        _CONTENT_CACHE[key] = c
+    return c
 
 
 def gen_len(rng):
